@@ -43,6 +43,7 @@ type builtEntry struct {
 	body     string // plain | badzip | goodzip (what the extracted content looks like to the recursive mode)
 	depth    int
 	nested   *builtArchive
+	rmFails  bool // fault injection: the back end refuses to remove this nested archive after it was unzipped
 	// for damaged streams: what an independent decoder makes of the stored bytes
 	decodeErr bool
 	decodeLen int
@@ -305,4 +306,45 @@ func (a *builtArchive) modelExact(recursive bool) bool {
 		}
 	}
 	return true
+}
+
+// markRemovalFault finds the nested archive that the recursive mode extracts to `p` (relative to the destination) and unzips,
+// and records that its removal will be refused.
+func markRemovalFault(a *builtArchive, recursive bool, p string) bool {
+	var walk func(a *builtArchive, prefix string) bool
+	walk = func(a *builtArchive, prefix string) bool {
+		for _, e := range a.entries {
+			if e.spec.Dir || !(e.recursed(recursive) && e.body == "goodzip") {
+				continue
+			}
+			q := path.Join(prefix, e.spec.Name)
+			if q == p {
+				e.rmFails = true
+				return true
+			}
+			if walk(e.nested, path.Join(path.Dir(q), stem(q))) {
+				return true
+			}
+		}
+		return false
+	}
+	return walk(a, "")
+}
+
+// nestedArchivePaths lists the paths (relative to the destination) of the nested archives the recursive mode will unzip.
+func nestedArchivePaths(a *builtArchive, recursive bool) []string {
+	var out []string
+	var walk func(a *builtArchive, prefix string)
+	walk = func(a *builtArchive, prefix string) {
+		for _, e := range a.entries {
+			if e.spec.Dir || !(e.recursed(recursive) && e.body == "goodzip") {
+				continue
+			}
+			q := path.Join(prefix, e.spec.Name)
+			out = append(out, q)
+			walk(e.nested, path.Join(path.Dir(q), stem(q)))
+		}
+	}
+	walk(a, "")
+	return out
 }
